@@ -25,6 +25,8 @@ type inputSpec struct {
 	tag         string
 	explicitIDs []int // large families: one explicit value id list
 	explicitNil bool  // large families: value-less
+	rev         bool  // ask everything a second time on the same instance, in reverse order
+	qsRev       []string
 }
 
 // cases expands the unit into build inputs, simplest first.
@@ -103,6 +105,7 @@ type trieCaseJSON struct {
 	Inst       string   `json:"instance"`
 	QueriesHex []string `json:"queries_hex,omitempty"`
 	Scaffold   string   `json:"scaffold,omitempty"`
+	Rev        bool     `json:"reverse_sweep,omitempty"`
 }
 
 func eqVal(a, b interface{}) bool {
@@ -264,7 +267,7 @@ func shrinkTrieCase(w *h.Worker, c *h.Case, u *inputSpec, oracle trieOracle, v *
 func evalTrieCase(w *h.Worker, c *h.Case, u *inputSpec, oracle trieOracle, record bool) *h.Viol {
 	b, p := h.Build(c)
 	mkViol := func(sig, msg, inst string) *h.Viol {
-		tj := trieCaseJSON{CaseJSON: c.JSON(), Inst: inst, Scaffold: u.sc.Name}
+		tj := trieCaseJSON{CaseJSON: c.JSON(), Inst: inst, Scaffold: u.sc.Name, Rev: u.rev}
 		if len(u.qs) <= 2000 {
 			for _, q := range u.qs {
 				tj.QueriesHex = append(tj.QueriesHex, fmt.Sprintf("%x", q))
@@ -310,7 +313,27 @@ func evalTrieCase(w *h.Worker, c *h.Case, u *inputSpec, oracle trieOracle, recor
 			return mkViol("load-error", lerr.Error(), inst)
 		}
 		var v *h.Viol
-		pp = h.Safely(func() { v = oracle(w, b, inst, st, u) })
+		pp = h.Safely(func() {
+			v = oracle(w, b, inst, st, u)
+			if v == nil && u.rev {
+				// a read must return the same whatever was asked before it: the
+				// whole oracle once more on the same instance, in reverse order
+				if u.qsRev == nil && len(u.qs) > 0 {
+					u.qsRev = make([]string, len(u.qs))
+					for i, q := range u.qs {
+						u.qsRev[len(u.qs)-1-i] = q
+					}
+				}
+				uu := *u
+				uu.qs = u.qsRev
+				w.Rev = true
+				v = oracle(w, b, inst, st, &uu)
+				if v != nil {
+					v.Msg += " (second sweep over the same instance, reverse order)"
+				}
+			}
+		})
+		w.Rev = false
 		if pp != nil {
 			return mkViol("panic", fmt.Sprintf("panic: %v", pp), inst)
 		}
@@ -335,7 +358,7 @@ func replayTrie(prop string, tj trieCaseJSON) *h.Viol {
 	}
 	c := tj.CaseJSON.Case()
 	sc := &h.Scaffolded{Name: tj.Scaffold, Keys: c.Keys, IsVar: make([]bool, len(c.Keys)), Lift: func(q string) string { return q }}
-	u := &inputSpec{sc: sc, insts: []string{tj.Inst}}
+	u := &inputSpec{sc: sc, insts: []string{tj.Inst}, rev: tj.Rev}
 	for _, qh := range tj.QueriesHex {
 		var b []byte
 		fmt.Sscanf(qh, "%x", &b)
